@@ -397,6 +397,9 @@ func parseProposalAnswer(str string, props []*Proposal, l *log.Logger) error {
 			prop.offset, _ = strconv.Atoi(str[:idx+1])
 			str = str[idx+1:]
 
+			if prop.offset < 0 {
+				return errors.New("Got negative offset in proposal answer")
+			}
 			if prop.offset > ProtocolOffsetSizeLimit { // RMS Express does this (in Winmor P2P for sure)
 				prop.offset = 0
 				if l != nil {
@@ -440,6 +443,9 @@ func (s *Session) writeCompressed(rw io.ReadWriter, p *Proposal) (err error) {
 
 	if p.compressedSize < 6 { // lzhuf's smallest valid length (empty)
 		return errors.New(`Invalid compressed data`)
+	}
+	if p.offset > len(p.compressedData) {
+		return errors.New(`Requested offset is beyond the end of the message`)
 	}
 
 	buffer := bytes.NewBuffer(p.compressedData[p.offset:])
